@@ -426,7 +426,19 @@ def check_polylin(case, rec):
         else:
             rec.check('poly-superposition', False, key='poly-superposition:sparse-terms',
                       msg=f'{fam}: terms() returned {len(ts)} entries for {N} coefficients of which some are exactly zero')
-    rec.event('poly_evaluations', 7)
+    # ONE polynomial object asked several times: the same radii at other azimuths (a rotated sample pattern, a walk round a
+    # ring), then other radii at the same azimuths - every answer is the polynomial's value at the points asked for
+    zobj = cls(coeffs=np.array(c1))
+    p_rot = p + prng.uniform(0.3, 2.5)
+    r_new = np.sqrt(prng.random(npts))
+    scl = np.sum(np.abs(c1) * nrm)
+    for (rr_, pp_, what) in ((r, p, 'first call'), (r, p_rot, 'same radii, rotated azimuths'),
+                             (r_new, p_rot, 'other radii, same azimuths'), (r, p, 'first points again')):
+        got = np.broadcast_to(np.asarray(zobj.poly(rr_, pp_), float), rr_.shape)
+        want = np.broadcast_to(np.asarray(cls(coeffs=np.array(c1)).poly(rr_, pp_), float), rr_.shape)
+        rec.close('poly-superposition', got, want, TOL_LIN, scale=scl, key='poly-superposition:object-reused',
+                  msg=f'{fam}: one object evaluated repeatedly ({what}) differs from a fresh object at the same points (N={N})')
+    rec.event('poly_evaluations', 15)
 
 
 def asbuilt_fit(A, z):
